@@ -1859,7 +1859,7 @@ func (g *c02GenState) exps(nops, count, depth int) []Sx {
 }
 
 func (c02) Gen(r *Rand, i int, tier string) Sx {
-	if i%12 == 11 {
+	if i%12 == 11 || i%12 == 5 {
 		return c02GenDiff(r)
 	}
 	sector := r.Pick([]int{16, 16, 32})
@@ -2138,8 +2138,27 @@ func c02Diff(in Sx) (Sx, bool) {
 		slots = append(slots, L(AI(i), LBytes(r.RecordKey.Key[:]), AU(uint64(r.RecordKey.Attempt)), AI(r.Location.BlockIndex),
 			A(r.Location.OffsetBytes), A(r.Location.SizeBytes)))
 	}
+	// key level: what the real key-location map finds for every key that occurs in a record
+	keys := []Sx{}
+	seenKey := map[local.Key]bool{}
+	for _, r := range in.Nth(3).List {
+		var key local.Key
+		for i, x := range r.Nth(4).List {
+			key[i] = byte(x.Z)
+		}
+		if seenKey[key] {
+			continue
+		}
+		seenKey[key] = true
+		loc, err := s.klm.Get(key)
+		if err != nil {
+			keys = append(keys, L(LBytes(key[:]), A(0)))
+		} else {
+			keys = append(keys, L(LBytes(key[:]), A(1), AI(loc.BlockIndex), A(loc.OffsetBytes), A(loc.SizeBytes)))
+		}
+	}
 	s.lock.RUnlock()
-	return L(s.restored, L(slots...), L(dev...)), true
+	return L(s.restored, L(slots...), L(dev...), L(keys...)), true
 }
 
 func c02GenDiff(r *Rand) Sx {
@@ -2160,6 +2179,9 @@ func c02GenDiff(r *Rand) Sx {
 		perm[i], perm[j] = perm[j], perm[i]
 	}
 	nb := r.Intn(nblocks + 1)
+	if nb == 0 && r.Chance(85) {
+		nb = 1 + r.Intn(nblocks)
+	}
 	blocks := []Sx{}
 	type ep struct {
 		id   uint64
@@ -2187,12 +2209,20 @@ func c02GenDiff(r *Rand) Sx {
 		blocks = append(blocks, L(AI(lo), AI(sz), AI(r.Intn(bs+1)), L(seeds...)))
 	}
 	recs := []Sx{}
+	hinit := r.U64()
+	tableSize := nrec
+	for tableSize > 3 && !primes.IsPrime(tableSize) {
+		tableSize--
+	}
 	for k := 2 + r.Intn(9); k > 0; k-- {
 		var epoch, seed uint64
 		bfl := r.Pick([]int{0, 0, 0, 1, 1, 2, 3})
 		if len(eps) > 0 && !r.Chance(12) {
 			e := eps[r.Intn(len(eps))]
 			epoch, seed = e.id, e.seed
+			if r.Chance(85) {
+				bfl = r.Intn(e.last + 1)
+			}
 			if r.Chance(12) {
 				seed = r.U64() // written under another (stale) seed
 			}
@@ -2213,7 +2243,17 @@ func c02GenDiff(r *Rand) Sx {
 		if r.Chance(18) {
 			flip = r.Intn(66)
 		}
-		recs = append(recs, L(AI(r.Intn(nrec)), AU(seed), AU(epoch), AI(bfl), LBytes(key), AI(r.Intn(5)), AI(r.Intn(bs)), AI(r.Intn(bs)), AI(flip)))
+		att := r.Intn(5)
+		slot := r.Intn(nrec)
+		if r.Chance(65) {
+			// where the key-location map would look for it
+			att = r.Pick([]int{0, 0, 0, 0, 1, 2})
+			var kk local.Key
+			copy(kk[:], key)
+			rk := local.LocationRecordKey{Key: kk, Attempt: uint32(att)}
+			slot = int(rk.Hash(hinit) % uint64(tableSize))
+		}
+		recs = append(recs, L(AI(slot), AU(seed), AU(epoch), AI(bfl), LBytes(key), AI(att), AI(r.Intn(bs)), AI(r.Intn(bs)), AI(flip)))
 	}
-	return L(A(1), cfg, L(AU(oldest), L(blocks...), AU(r.U64())), L(recs...))
+	return L(A(1), cfg, L(AU(oldest), L(blocks...), AU(hinit)), L(recs...))
 }
